@@ -16,6 +16,7 @@ import (
 	"errors"
 	"fmt"
 	"os"
+	"runtime"
 	"sort"
 	"strings"
 	"sync"
@@ -47,6 +48,8 @@ import (
 	"github.com/lightningnetwork/lnd/lnrpc/verrpc"
 	"github.com/lightningnetwork/lnd/lnrpc/walletrpc"
 	"github.com/lightningnetwork/lnd/lnwallet/chainfee"
+	"google.golang.org/grpc/codes"
+	"google.golang.org/grpc/status"
 )
 
 const (
@@ -181,7 +184,9 @@ type lcReg struct {
 	ctx     context.Context
 	confCh  chan *chainntnfs.TxConfirmation
 	spendCh chan *chainntnfs.SpendDetail
+	errCh   chan error
 	fired   bool
+	errSent bool
 }
 
 func (r *lcReg) live() bool { return !r.fired && r.ctx.Err() == nil }
@@ -218,10 +223,10 @@ func (n *lcNotifier) RegisterConfirmationsNtfn(ctx context.Context,
 	r := &lcReg{
 		seq: len(n.regs), acct: owner, conf: true, txid: *txid,
 		script: append([]byte(nil), pkScript...), ctx: ctx,
-		confCh: make(chan *chainntnfs.TxConfirmation),
+		confCh: make(chan *chainntnfs.TxConfirmation), errCh: make(chan error),
 	}
 	n.regs = append(n.regs, r)
-	return r.confCh, make(chan error), nil
+	return r.confCh, r.errCh, nil
 }
 
 func (n *lcNotifier) RegisterSpendNtfn(ctx context.Context,
@@ -234,10 +239,10 @@ func (n *lcNotifier) RegisterSpendNtfn(ctx context.Context,
 	r := &lcReg{
 		seq: len(n.regs), acct: owner, op: *outpoint,
 		script: append([]byte(nil), pkScript...), ctx: ctx,
-		spendCh: make(chan *chainntnfs.SpendDetail),
+		spendCh: make(chan *chainntnfs.SpendDetail), errCh: make(chan error),
 	}
 	n.regs = append(n.regs, r)
-	return r.spendCh, make(chan error), nil
+	return r.spendCh, r.errCh, nil
 }
 
 // owner attributes a registration to the account whose script it watches
@@ -249,6 +254,44 @@ func (n *lcNotifier) owner(pkScript []byte) int {
 		return id
 	}
 	return n.env.curKey
+}
+
+// flushCancels does what lnd's client does for a registration whose context
+// was cancelled: the stream ends with a gRPC Canceled error, which the
+// controller's watcher goroutine receives on its error channel; the goroutine
+// then winds down (and runs its deferred clean-up). The harness delivers these
+// errors at the end of the op that cancelled, i.e. after a replacing
+// registration was made.
+func (n *lcNotifier) flushCancels() int {
+	n.mu.Lock()
+	var pend []*lcReg
+	if !n.dead {
+		for _, r := range n.regs {
+			if !r.fired && !r.errSent && r.ctx.Err() != nil {
+				r.errSent = true
+				pend = append(pend, r)
+			}
+		}
+	}
+	n.mu.Unlock()
+	for _, r := range pend {
+		select {
+		case r.errCh <- status.Error(codes.Canceled, "context canceled"):
+		case <-time.After(2 * time.Second):
+			continue
+		}
+		// let the goroutine finish its deferred clean-up (it deletes the map entry)
+		key := n.env.accts[r.acct]
+		for i := 0; i < 200; i++ {
+			runtime.Gosched()
+			if key == nil || !watcher.VerifLifecycleHasCancel(n.env.ctrl.real, key.key.PubKey, r.conf) {
+				break
+			}
+			time.Sleep(10 * time.Microsecond)
+		}
+		time.Sleep(150 * time.Microsecond)
+	}
+	return len(pend)
 }
 
 // liveRegs returns the live registrations of one account in registration
@@ -343,8 +386,18 @@ func (h *lcHandler) HandleAccountSpend(k *btcec.PublicKey, s *chainntnfs.SpendDe
 }
 func (h *lcHandler) HandleAccountExpiry(k *btcec.PublicKey, height uint32) error {
 	err := h.real.HandleAccountExpiry(k, height)
+	h.env.logMu.Lock()
+	h.env.expiryCalls = append(h.env.expiryCalls, lcExpiryCall{acct: h.env.acctID(k), height: height, best: h.env.height})
+	h.env.logMu.Unlock()
 	atomic.AddInt64(&h.env.expiryDone, 1)
 	return err
+}
+
+// lcExpiryCall is one expiry hand-off the real manager received.
+type lcExpiryCall struct {
+	acct   int
+	height uint32 // height reported by the watcher
+	best   uint32 // chain height known to the harness at that moment
 }
 
 // ---------------------------------------------------------------- wallet
@@ -358,6 +411,7 @@ type lcWallet struct {
 	nextKey     *keychain.KeyDescriptor
 	failFunding bool
 	failList    bool // fault injection: ListTransactions fails
+	keyCount    uint32 // pool account keys derived so far (DeriveNextKey without nextKey)
 	utxoSeq     uint32
 	fundSeq     uint32
 	fundCalls   int
@@ -369,8 +423,30 @@ func (w *lcWallet) RawClientWithMacAuth(ctx context.Context) (context.Context,
 
 	return ctx, 0, nil
 }
-func (w *lcWallet) DeriveNextKey(context.Context, int32) (*keychain.KeyDescriptor, error) {
-	return w.nextKey, nil
+func (w *lcWallet) DeriveNextKey(_ context.Context, family int32) (*keychain.KeyDescriptor, error) {
+	if w.nextKey != nil {
+		return w.nextKey, nil
+	}
+	// a wallet that hands out its pool account keys in index order
+	w.mu.Lock()
+	defer w.mu.Unlock()
+	idx := w.keyCount
+	w.keyCount++
+	_, pub := test.CreateKey(int32(idx))
+	return &keychain.KeyDescriptor{
+		KeyLocator: keychain.KeyLocator{Family: keychain.KeyFamily(family), Index: idx}, PubKey: pub,
+	}, nil
+}
+
+// ListAccounts reports the pool account key family with its key count.
+func (w *lcWallet) ListAccounts(context.Context, string, walletrpc.AddressType) ([]*walletrpc.Account, error) {
+	w.mu.Lock()
+	defer w.mu.Unlock()
+	return []*walletrpc.Account{
+		{Name: "default", DerivationPath: "m/84'/1'/0'", ExternalKeyCount: 7},
+		{Name: "act:220", DerivationPath: fmt.Sprintf("m/%d'/%d'/%d'", keychain.BIP0043Purpose,
+			chaincfg.TestNet3Params.HDCoinType, poolscript.AccountKeyFamily), ExternalKeyCount: w.keyCount},
+	}, nil
 }
 func (w *lcWallet) DeriveKey(_ context.Context, l *keychain.KeyLocator) (*keychain.KeyDescriptor, error) {
 	_, pub := test.CreateKey(int32(l.Index))
@@ -680,6 +756,10 @@ type lcEnv struct {
 
 	// what the chain knows: the (published / batch) transaction that spends an outpoint
 	spenders map[wire.OutPoint]*wire.MsgTx
+
+	expiryCalls []lcExpiryCall
+	extBy       map[int]string // which kind of op last changed the account's expiry
+	taint       map[int]bool   // accounts whose batch was committed by another account's spend (no re-watch)
 
 	barrier    *lcBarrier
 	handlerErr map[int]error
